@@ -116,6 +116,23 @@ pub(crate) fn known_parallelism() -> NonZeroUsize {
     }
 }
 
+/// Returns the distinct thread counts to benchmark with, in ascending order,
+/// where 0 stands for [`known_parallelism`].
+pub(crate) fn thread_counts(threads: Option<&[usize]>) -> Vec<NonZeroUsize> {
+    let mut thread_counts: Vec<NonZeroUsize> = threads
+        .unwrap_or_default()
+        .iter()
+        .map(|&n| match NonZeroUsize::new(n) {
+            Some(n) => n,
+            None => known_parallelism(),
+        })
+        .collect();
+
+    thread_counts.sort_unstable();
+    thread_counts.dedup();
+    thread_counts
+}
+
 /// Returns `true` if running under [`cargo-nextest`](https://nexte.st).
 pub(crate) fn is_cargo_nextest() -> bool {
     std::env::var_os("NEXTEST").unwrap_or_default() == "1"
